@@ -281,7 +281,9 @@ class SymList:
         self.count, self.at = count, at
 
     def getattr(self, ip, name, lineno):
-        if name == "append":
+        if name in ("append", "add"):
+            # `add`: a Python set of symbolic size is carried as the list of its insertions (exact for membership tests,
+            # which is all the verified code does with such sets; len() of such a set is not supported)
             return _SymListAppend(self)
         raise Unsupported("list method %s on a list of symbolic length" % name)
 
